@@ -107,6 +107,14 @@ CHECKS = {
              "CKR_OPERATION_NOT_INITIALIZED behaviour and the pending operation is completed canonically (directly and after an unrelated operation in a second "
              "session) and compared with a clean single-part run; reported lengths are bounded per the statement, canaries guard announced and returned lengths.",
         note="The 'unchanged' reference is the library's own clean run (independent correctness is C10); verify operations use exact shapes only."),
+    "C10": dict(
+        category="exploration", design_ref="DESIGN.md 3/C10",
+        technique="exhaustive grid enumeration (mechanism x key size x every message length x every composition into <=2/3 multi-part calls x direction, plus every single-bit tamper) on the real library against an independent implementation (Botan, hashlib, pure-Python big-integer arithmetic)",
+        text="~94 000 (quick) evaluations: every length 0..2-3 blocks+1 for AES/3DES ECB, CBC, CBC-PAD, CTR (several counter widths), GCM (IV/AAD/tag variants), "
+             "HMAC x6, CMAC, six digests, RSA PKCS#1 v1.5 / hashed / PSS / OAEP / X.509, DSA, ECDSA P-256/384/521, Ed25519, DH / ECDH / X25519 with ordinary and "
+             "leading-zero peers; deterministic outputs must equal the reference, randomised ones cross-verify/decrypt both ways, every multi-part composition "
+             "must equal the single-part result, and every flipped bit of data, signature/MAC, IV, AAD or tag must be rejected.",
+        note="Key and message values are fixed patterns; single DES, Ed448 and X448 are not covered on this image (no legacy provider / no independent reference)."),
 }
 
 NOT_YET = "check under construction in this session; not claimed yet (DESIGN.md Appendix D gives the build order)"
